@@ -265,7 +265,23 @@ impl Encoder for Codec {
     type Item = Encoded;
     type Error = EncodeError;
 
-    fn encodev(&self, mut item: Self::Item, dst: &mut BytePages) -> Result<(), EncodeError> {
+    fn encodev(&self, item: Self::Item, dst: &mut BytePages) -> Result<(), EncodeError> {
+        let len = dst.len();
+        self.encode_item(item, dst).inspect_err(|_| rollback(dst, len))
+    }
+}
+
+/// Failed encode must not leave partially written packet in the buffer
+fn rollback(dst: &mut BytePages, len: usize) {
+    if dst.len() > len {
+        let mut written = dst.split_to(len);
+        dst.clear();
+        written.move_to(dst);
+    }
+}
+
+impl Codec {
+    fn encode_item(&self, mut item: Encoded, dst: &mut BytePages) -> Result<(), EncodeError> {
         // handle [MQTT 3.1.2.11.7]
         if self.flags.get().contains(CodecFlags::NO_PROBLEM_INFO) {
             match item {
